@@ -135,14 +135,20 @@ def hexText (bs : Bytes) : Bytes := (hexOfBytes bs).toUTF8.toList
 def keyIndex (c : Char) : Option UInt8 :=
   if c == 'R' then some 0 else if c == 'P' then some 1 else if c == 'E' then some 2 else if c == 'C' then some 3 else none
 
-def parseOp (s : String) : Option (Op UInt8) :=
-  if s == "c" then some .clear
-  else if s == "w" then some .writeParse
+/-- a step of the harness: `some op` = an operation of the model; `none` = a signing ATTEMPT that the signer refuses
+(`xP`: the passphrase-protected key without its passphrase) — `sign` returns an error and the package must be
+exactly what it was. `S<key>` signs with a creation time far in the future (4 000 000 000): verification does not
+depend on any clock. -/
+def parseOp (s : String) : Option (Option (Op UInt8)) :=
+  if s == "c" then some (some .clear)
+  else if s == "w" then some (some .writeParse)
   else match s.toList with
-    | ['s', c] => (keyIndex c).map fun k => .sign k sigTime
+    | ['s', c] => (keyIndex c).map fun k => some (.sign k sigTime)
+    | ['S', c] => (keyIndex c).map fun k => some (.sign k 4000000000)
+    | ['x', c] => (keyIndex c).map fun _ => none
     | _ => none
 
-def parseOps (s : String) : Option (List (Op UInt8)) :=
+def parseOps (s : String) : Option (List (Option (Op UInt8))) :=
   if s == "-" then some [] else (s.splitOn ",").mapM parseOp
 
 /-- `R=<hex>,P=…,E=…,C=…` → text of the id per key index -/
@@ -199,11 +205,12 @@ def implGpg (implRecs : List String) (i : Nat) : String :=
 
 /-- model observation: records of the start state and of every step -/
 def modelObs (ids : UInt8 → Bytes) (H : Hashes) (p0 : Package)
-    (opsL : List (Op UInt8)) (gpg : Bool) (implRecs : List String) : String :=
-  let rec go (p : Package) (rest : List (Op UInt8)) (i : Nat) (acc : List String) : List String :=
+    (opsL : List (Option (Op UInt8))) (gpg : Bool) (implRecs : List String) : String :=
+  let rec go (p : Package) (rest : List (Option (Op UInt8))) (i : Nat) (acc : List String) : List String :=
     match rest with
     | [] => acc.reverse
-    | o :: os =>
+    | none :: os => go p os (i + 1) (record ids H p (if gpg then some "-" else none) :: acc)   -- refused signing: unchanged
+    | some o :: os =>
       match step (scheme ids) H.sha256 o p with
       | .ok q =>
         let g := if !gpg then none
@@ -251,10 +258,10 @@ def judgeRecord (kind : String) (ids : UInt8 → Bytes) (hdrFnv contFnv : String
     else if rest.isEmpty then none else some "record-shape"
   | _ => some "record-shape"
 
-def judge (kind : String) (ids : UInt8 → Bytes) (hdrFnv contFnv : String) (gpg : Bool) (opsL : List (Op UInt8))
+def judge (kind : String) (ids : UInt8 → Bytes) (hdrFnv contFnv : String) (gpg : Bool) (opsL : List (Option (Op UInt8)))
     (implRecs : List String) : Option String :=
   if implRecs.length != opsL.length + 1 && !(implRecs.getLast?.map (·.startsWith "E:")).getD false then some "record-count" else
-  let rec go (s : SpecState) (fresh : Bool) (recs : List String) (rest : List (Op UInt8)) : Option String :=
+  let rec go (s : SpecState) (fresh : Bool) (recs : List String) (rest : List (Option (Op UInt8))) : Option String :=
     match recs with
     | [] => none
     | r :: rs =>
@@ -263,7 +270,8 @@ def judge (kind : String) (ids : UInt8 → Bytes) (hdrFnv contFnv : String) (gpg
       | none =>
         match rest with
         | [] => if rs.isEmpty then none else some "record-count"
-        | o :: os => go (s.after o) (isSign o) rs os
+        | some o :: os => go (s.after o) (isSign o) rs os
+        | none :: os => go s false rs os     -- a refused signing attempt is not a signing: nothing may change
   go ⟨false, none⟩ false implRecs opsL
 
 def handle (_op : String) (args : List String) (impl : String) : String :=
@@ -285,11 +293,12 @@ def handle (_op : String) (args : List String) (impl : String) : String :=
         let verdict := match judge kind ids hdrFnv contFnv gpg opsL implRecs with
           | none => "holds"
           | some v => "fails:" ++ v
-        let final := opsL.foldl SpecState.after ⟨false, none⟩
+        let final : SpecState := opsL.foldl (fun (st : SpecState) o => match o with | some o => st.after o | none => st) ⟨false, none⟩
+        let special := if opsL.any (·.isNone) then "-refused" else if opsL.any (fun o => match o with | some (.sign _ t) => t != sigTime | _ => false) then "-future" else ""
         let fin := match final.signer with
           | some k => "signed" ++ String.ofList [(['R', 'P', 'E', 'C'] : List Char).getD k.toNat '?']
           | none => if final.touched then "cleared" else "untouched"
-        answer model verdict s!"{kind}-len{opsL.length}-{fin}"
+        answer model verdict s!"{kind}-len{opsL.length}-{fin}{special}"
       | _ => answer "start-err" (if impl == "start-err" then "dontcare" else "fails:accepted-what-model-rejects") "start-rejected"
     | _, _ => badReq "args"
   | _ => badReq "args"
